@@ -31,9 +31,13 @@ CTX_D = {'macros': [['p', S('m', 'm0')], ['q', S('m0')], ['pm', S(['m0', '+'], '
 CTX_E = {'macros': [['li', ['LVA', '[']], ['mi', ['LVA', '{']], ['lm', ['LVA', '[{']], ['verb', ['LV']], ['z', S()]],
          'envs': [['en', S('o1'), False], ['vb', ['VB'], False]], 'specials': [['~', S()]], 'um': S(), 'ue': [S(), False]}
 # a user hook that raises a position-less parse error (tolerant mode must swallow it like any other parse error); oracle only
+# argument deltas given as a chain (ParsingStateDeltaChained: mode switch first, then an unrelated setting); oracle only
+CTX_G = {'macros': [['tc', ['S', [['m', '-c']]]], ['mc', ['S', [['m', '+c']]]], ['tm', ['S', [['m', '-c'], ['m', '']]]], ['z', S()]],
+         'envs': [['eq', S(), True], ['e', S(), False]], 'specials': [['~', S()]], 'um': S(), 'ue': [S(), False]}
+ATOMS_G = ['a', ' ', '{', '}', '$', '$$', '\\(', '\\)', '\\tc', '\\mc', '\\tm', '\\z', '{x}', '\\begin{eq}', '\\end{eq}', '\\tc{a $b$}', '\\mc{x}', '~']
 CTX_F = {'macros': [['ref', ['SH', [['m', '']]]], ['so', ['SH', [['o1', ''], ['m', '']]]], ['m', S('m')], ['z', S()]],
          'envs': [['en', ['SH', [['m', '']]], False]], 'specials': [['~', S()]], 'um': S(), 'ue': [S(), False]}
-CONTEXTS = {'A': CTX_A, 'B': CTX_B, 'C': CTX_C, 'D': CTX_D, 'E': CTX_E, 'F': CTX_F, 'default': 'default'}
+CONTEXTS = {'A': CTX_A, 'B': CTX_B, 'C': CTX_C, 'D': CTX_D, 'E': CTX_E, 'F': CTX_F, 'G': CTX_G, 'default': 'default'}
 ATOMS_F = ['a', ' ', '\n', '{}', '{x}', '[]', '[o]', '{', '}', '$', '~', '\\ref', '\\so', '\\m', '\\z', '\\begin{en}', '\\end{en}', '%c\n']
 ATOMS_E = ['a', ' ', '\n', '{x}', '[o]', '|', '|c|', '!v!', '{', '}', '[', '$', '%c\n', '~', '\\li', '\\mi', '\\lm', '\\verb', '\\z', '+a[1]+', '\\begin{en}', '\\end{en}', '\\begin{vb}', '\\end{vb}', '\\end{vb']
 ATOMS_D = ['a', ' ', '\n', '{', '}', '[', '$', '%c\n', '~', '!', '\\p', '\\q', '\\pm', '\\z', '\\begin{en}', '\\end{en}', '\\', '\\(', '\\)', '\\begin', '\t']
@@ -56,6 +60,8 @@ def atoms_for(ctxname):
         return ATOMS_E
     if ctxname == 'F':
         return ATOMS_F
+    if ctxname == 'G':
+        return ATOMS_G
     return ATOMS_DEFAULT if ctxname == 'default' else ATOMS_CUSTOM
 
 def soup(rng, atoms, maxlen=10):
